@@ -92,7 +92,7 @@ def replay(chk, cases, judge=None, tagger=None, hooks=False, sample_every=997, f
             continue
         for r, x, y in zip(c['runs'], c['exp'], o['obs']):
             n += 1
-            chk.count([o['desc'], r], True)
+            chk.count([o['desc'], r], x[0] == 'ok' or x[3] > r[2])
             why = judge(c, r, x, y) if judge else engine.judge_run(x, y, r[2])
             if n % sample_every == 1:
                 chk.sample({'description': o['desc'], 'entry': r[0], 'text': text_of(r[1]), 'pos': r[2],
